@@ -45,7 +45,7 @@ MANIFEST = dict(
         "CMSA the same generator / init / setter axes x setInitialSigma; ElitistCMA generator x 3 short inits x activeUpdate {untouched, false, true} x sigma() x {no box | feasibility box with default / custom constrainedPenaltyFactor()}; "
         "VD-CMA generator x 4 inits x {default | setInitialSigma | setSigma after init} x lambda() changed after init; CrossEntropyMethod 4 inits x {default | setVariance(double) | variance vector} x {no | ConstantNoise | LinearNoise} x population/selection size changed after init; SimplexDownhill 3 inits; "
         "setters called in the MIDDLE of a run (activeUpdate toggled, sigma(), setLowerBound, setSigma, lambda(), setVariance, population sizes). "
-        "Determinism with a private generator is tested with random::globalRng in a DIFFERENT state in each of the 9 runs (a draw from the wrong generator changes the run), with the global generator it is seeded identically. "
+        "Every optimizer object is constructed in storage pre-filled with a byte pattern that differs between the runs of a case, so a member that neither constructor nor init sets has different garbage in the two fresh runs (uninitialised-member slips show as same-seed-different-run or a UBSan report). " "Determinism with a private generator is tested with random::globalRng in a DIFFERENT state in each of the 9 runs (a draw from the wrong generator changes the run), with the global generator it is seeded identically. "
         "The model traces cover the same axes where they change the update: activeUpdate on/off and a feasibility box (Ecma model), lower bound (carried in the trace header) and initial covariance (CMA model), initial covariance (CMSA), noise type / variance vector / resized population (CEM; cemNoise in Model/ES.lean), every init overload (simplex); "
         "the strategy constants are compared with the regenerated formulas under every construction mode / init overload / setter combination."),
   note=TRUST + "not modelled (inputs of the models): the random variates and the eigendecomposition of MultiVariateNormalDistribution::update; VD-CMA's updateStrategyParameters has no Lean model (constants regenerated and compared, update covered by the oracle only; "
